@@ -390,6 +390,9 @@ def r05_9(ctx, run, rule='R05.9'):
                     if tt[0] == 'bin' and tt[1] in ('Eq', 'Ne') and ('type_code' in sh) and any(const_of(x) == STR for x in (tt[2], tt[3])):
                         if (tt[1] == 'Eq') == bool(c[2]):
                             ok = True
+                    # the element's whole entry word (kind and length) was compared equal with the other operand's entry
+                    if tt[0] == 'call' and c[2] is True and canon(tt[1]).split('::')[-1] == 'eq' and 'JEntry' in tt[1]:
+                        ok = True
                 d = sites.setdefault(key, True)
                 sites[key] = d and ok
         for key, ok in sorted(sites.items()):
